@@ -189,9 +189,68 @@ fn returning(j: &J) -> ReturningClause {
     }
 }
 
+/// the ValueTuple a Rust tuple of that arity converts into (One / Two / Three / Many)
+pub fn value_tuple(mut vs: Vec<Value>) -> ValueTuple {
+    match vs.len() {
+        1 => ValueTuple::One(vs.remove(0)),
+        2 => { let b = vs.remove(1); ValueTuple::Two(vs.remove(0), b) }
+        3 => { let c3 = vs.remove(2); let b = vs.remove(1); ValueTuple::Three(vs.remove(0), b, c3) }
+        _ => ValueTuple::Many(vs),
+    }
+}
+
+fn order_col(c: &J) -> ColumnRef {
+    assert!(c["e"]["k"] == "col", "case error: column-based order_by given a non-column expression");
+    col_of(&c["e"])
+}
+
+/// the same calls through the equivalent "sugar" methods of SelectStatement
+fn apply_select_via(s: &mut SelectStatement, c: &J, m: &str) {
+    match m {
+        "columns" => { s.columns([col_of(c)]); }
+        "exprs" => { s.exprs([expr(&c["e"])]); }
+        "left_join" | "right_join" | "inner_join" | "cross_join" | "full_outer_join" => {
+            assert!(c.get("a").is_none(), "case error: sugar joins take no alias");
+            let (t, on) = (table_ref(&c["t"]), cond(&c["on"]));
+            match m {
+                "left_join" => s.left_join(t, on),
+                "right_join" => s.right_join(t, on),
+                "inner_join" => s.inner_join(t, on),
+                "cross_join" => s.cross_join(t, on),
+                _ => s.full_outer_join(t, on),
+            };
+        }
+        "group_by_columns" => { s.group_by_columns([col_of(c)]); }
+        "order_by" => {
+            match nulls(&c["nulls"]) {
+                Some(n) => s.order_by_with_nulls(order_col(c), order(&c["o"]), n),
+                None => s.order_by(order_col(c), order(&c["o"])),
+            };
+        }
+        "order_by_columns" => {
+            match nulls(&c["nulls"]) {
+                Some(n) => s.order_by_columns_with_nulls([(order_col(c), order(&c["o"]), n)]),
+                None => s.order_by_columns([(order_col(c), order(&c["o"]))]),
+            };
+        }
+        "lock_shared" => { s.lock_shared(); }
+        "lock_exclusive" => { s.lock_exclusive(); }
+        "unions" => { s.unions([(union_type(&st(c, "type")), select(&c["q"]))]); }
+        "and_where_option" => { s.and_where_option(Some(expr(&c["e"]))); }
+        "conditions" => { let e = expr(&c["e"]); s.conditions(true, |q| { q.and_where(e); }, |_| {}); }
+        "apply" => { let e = expr(&c["e"]); s.apply(|q| { q.and_where(e); }); }
+        "apply_if" => { s.apply_if(Some(expr(&c["e"])), |q, v| { q.and_where(v); }); }
+        other => panic!("case error: unknown select method {other}"),
+    }
+}
+
 /// apply one builder call to a SelectStatement
 pub fn apply_select(s: &mut SelectStatement, c: &J) {
     let op = c["op"].as_str().unwrap_or_else(|| panic!("op missing in {c}"));
+    // "m": the call is made through an equivalent public method (spec/stmt_methods.json says what it stands for)
+    if let Some(m) = c.get("m").and_then(|m| m.as_str()) {
+        return apply_select_via(s, c, m);
+    }
     match op {
         "column" => { s.column(col_of(c)); }
         "expr" => { s.expr(expr(&c["e"])); }
@@ -215,7 +274,7 @@ pub fn apply_select(s: &mut SelectStatement, c: &J) {
         "from_subquery" => { s.from_subquery(select(&c["q"]), a(&st(c, "a"))); }
         "from_values" => {
             let rows: Vec<ValueTuple> = c["rows"].as_array().unwrap().iter()
-                .map(|r| ValueTuple::Many(r.as_array().unwrap().iter().map(to_value).collect())).collect();
+                .map(|r| value_tuple(r.as_array().unwrap().iter().map(to_value).collect())).collect();
             s.from_values(rows, a(&st(c, "a")));
         }
         "from_function" => { s.from_function(func(&st(c, "f"), exprs(&c["args"])), a(&st(c, "a"))); }
@@ -337,6 +396,12 @@ pub fn on_conflict(j: &J) -> OnConflict {
 /// apply one call to an InsertStatement; returns the call's observable result
 pub fn apply_insert(s: &mut InsertStatement, c: &J) -> J {
     let op = c["op"].as_str().unwrap();
+    match c.get("m").and_then(|m| m.as_str()) {
+        Some("returning_all") => { s.returning_all(); return J::Null; }
+        Some("returning_col") => { s.returning_col(col_ref(&c["r"]["cols"][0])); return J::Null; }
+        Some(m) => panic!("case error: unknown insert method {m}"),
+        None => {}
+    }
     match op {
         "into_table" => { s.into_table(table_ref(&c["t"])); }
         "columns" => { s.columns(c["cols"].as_array().unwrap().iter().map(|x| a(x.as_str().unwrap())).collect::<Vec<_>>()); }
@@ -384,8 +449,40 @@ pub fn insert(j: &J) -> InsertStatement {
     s
 }
 
+/// the calls of UpdateStatement / DeleteStatement / InsertStatement through their equivalent methods ("m")
+macro_rules! dml_via {
+    ($s:expr, $c:expr, $m:expr) => {{
+        let (s, c, m) = ($s, $c, $m);
+        match m {
+            "and_where_option" => { s.and_where_option(Some(expr(&c["e"]))); true }
+            "order_by" => {
+                match nulls(&c["nulls"]) {
+                    Some(n) => s.order_by_with_nulls(order_col(c), order(&c["o"]), n),
+                    None => s.order_by(order_col(c), order(&c["o"])),
+                };
+                true
+            }
+            "order_by_columns" => {
+                match nulls(&c["nulls"]) {
+                    Some(n) => s.order_by_columns_with_nulls([(order_col(c), order(&c["o"]), n)]),
+                    None => s.order_by_columns([(order_col(c), order(&c["o"]))]),
+                };
+                true
+            }
+            "returning_all" => { s.returning_all(); true }
+            "returning_col" => { s.returning_col(col_ref(&c["r"]["cols"][0])); true }
+            _ => false,
+        }
+    }};
+}
+
 pub fn apply_update(s: &mut UpdateStatement, c: &J) {
     let op = c["op"].as_str().unwrap();
+    if let Some(m) = c.get("m").and_then(|m| m.as_str()) {
+        if m == "values" { s.values([(a(&st(c, "col")), expr(&c["e"]))]); return; }
+        if dml_via!(&mut *s, c, m) { return; }
+        panic!("case error: unknown update method {m}");
+    }
     match op {
         "table" => { s.table(table_ref(&c["t"])); }
         "from" => { s.from(table_ref(&c["t"])); }
@@ -416,6 +513,10 @@ pub fn update(j: &J) -> UpdateStatement {
 
 pub fn apply_delete(s: &mut DeleteStatement, c: &J) {
     let op = c["op"].as_str().unwrap();
+    if let Some(m) = c.get("m").and_then(|m| m.as_str()) {
+        if dml_via!(&mut *s, c, m) { return; }
+        panic!("case error: unknown delete method {m}");
+    }
     match op {
         "from_table" => { s.from_table(table_ref(&c["t"])); }
         "and_where" => { s.and_where(expr(&c["e"])); }
